@@ -277,7 +277,7 @@ class PathEval:
                 term = ("call", cp, tuple(args), bb) if visits == 0 else ("call", cp, tuple(args), bb, visits)
                 path.calls.append((bb, c, args, term))
                 if "dest" in t:
-                    self.assign(env, t["dest"], term)
+                    self.assign(env, t["dest"], _fold_option(cp, args, term))
                 nxt = []
                 if t.get("ret") is not None:
                     nxt.append(t["ret"])
@@ -357,6 +357,40 @@ def show(t, depth=0):
             nm += "::" + str(t[2])
         return "%s{%s}" % (nm, ", ".join(show(a, depth + 1) for a in t[3]))
     return "%s" % (t,)
+
+
+def _none_like(t):
+    """an Option known to be None on this path: the literal, or the `return None` an inlined helper's `?` produced"""
+    return isinstance(t, tuple) and t and ((t[0] == "agg" and str(t[1]).endswith("option::Option") and t[2] == "None") or
+                                           (t[0] == "call" and str(t[1]).endswith("FromResidual::from_residual")))
+
+
+def _fold_option(cp, args, term):
+    """Value of an Option combinator applied to an Option whose variant is known on this path (what an inlined helper's
+    `Some(x)` / `None` / `?` leaves behind): None.map(f) = None, None.unwrap_or(d) = d, Some(v).unwrap_or(d) = v, ... so that
+    a test on it folds and infeasible branches are not explored. Anything else is the call term itself."""
+    if not cp.startswith("core::option::Option::<") or not args:
+        return term
+    m = cp.rsplit("::", 1)[-1]
+    x = args[0]
+    some = x[3][0] if (isinstance(x, tuple) and x and x[0] == "agg" and str(x[1]).endswith("option::Option") and x[2] == "Some" and x[3]) else None
+    if _none_like(x):
+        if m in ("map", "and_then", "filter", "and", "zip", "copied", "cloned", "as_ref", "as_deref", "flatten"):
+            return ("agg", "core::option::Option", "None", ())
+        if m in ("unwrap_or", "map_or") and len(args) >= 2:
+            return args[1]
+        if m in ("is_some", "is_some_and"):
+            return ("const", "bool", 0, None)
+        if m == "is_none":
+            return ("const", "bool", 1, None)
+    elif some is not None:
+        if m == "unwrap_or":
+            return some
+        if m == "is_some":
+            return ("const", "bool", 1, None)
+        if m == "is_none":
+            return ("const", "bool", 0, None)
+    return term
 
 
 _COMMUTATIVE = {"BitAnd", "BitOr", "BitXor", "Eq", "Ne", "Add", "Mul", "AddWithOverflow", "MulWithOverflow"}
